@@ -99,6 +99,7 @@ def resolve_paths(vals: dict, paths) -> set:
 
 
 def run_one(I: Interp, reg: Registry, ci: ContractInfo, f, known_excludes=()):
+    reg.current_uses = tuple(getattr(ci.pycls, 'uses', ()))
     g = SymFactory(I)
     vals = reg.call_clause(I, ci, 'inputs', {'g': g})
     if not isinstance(vals, dict):
